@@ -198,6 +198,9 @@ InClass(f) ==
   /\ \A i \in DOMAIN f : IsApos(f[i]) => \A j \in (i + 1)..Len(f) : PlainTail(f[j])
   /\ (f # <<>> /\ f[Len(f)].k = "ws") => \A i \in DOMAIN f : ~NonLocalTok(f[i])
   /\ \A i \in DOMAIN f : f[i].k = "name" => NameOK(f[i].cs)
+(* the class only matters while one of the non-local mechanisms is an open finding *)
+InClassFor(f, E) == IF E \cap {"apos", "brk", "trail"} = {} THEN \A i \in DOMAIN f : f[i].k = "name" => NameOK(f[i].cs)
+                    ELSE InClass(f)
 OpModelled(f, op, E) ==
   \A i \in DOMAIN f : (f[i].k = "ref" /\ f[i].g.k \in {"cell", "rect"} /\ ImplApplies(f[i], op)) => CellRefModelled(f[i], op, E)
 =============================================================================
